@@ -296,9 +296,9 @@ def replay_cases(cases, handlers="default"):
 
 
 def validate(traces, timeout=3000):
-    return tlc.validate_traces("TraceC09", "TraceC09_run.cfg",
-                               [{"id": t["id"], "init": t["init"], "events": t["events"]} for t in traces],
-                               extra_files={"TraceC09_run.cfg": _cfg(TRACE_CFG)}, timeout=timeout, chunk=3000)
+    from harness import c08_batch
+    return c08_batch.validate("TraceC09", "TraceC09_run.cfg", _cfg(TRACE_CFG),
+                              [{"id": t["id"], "init": t["init"], "events": t["events"]} for t in traces], timeout=timeout)
 
 
 def selftest():
@@ -405,7 +405,7 @@ def main(chk, replay=None):
                 "listings fetched and lexed; well-formed = %d of %d gophermaps; non-trivial = well-formed gophermap with at "
                 "least one link line whose listing was lexed in all protocols"
                 % ("and triples " if tier == "thorough" else "", PROTOS, handler_lists, n_wf, len(cases)),
-        "samples": samples, "checker_cmd": res["cmd"] + " ; " + tv["cmd"], "trace_states": tv["states"],
+        "samples": samples, "checker_cmd": res["cmd"] + " ; " + tv["cmd"], "trace_states": tv["states"], "trace_chunks_retried": tv["retried"],
         "well_formed": n_wf, "input_classes": by_cls, "listings_lexed_per_protocol": lexed, "quirks_modelled": QUIRKS,
         "bindings": ["B2 every TLC-evaluated gophermap replayed on disk, fetched in every protocol", "B3 TraceC09"],
     }
